@@ -49,7 +49,7 @@ def main():
     do_run = '--run-checks' in args
     only = [a for a in args if not a.startswith('--')]
     head = sh('git -C /repo rev-parse --short HEAD').stdout.strip()
-    for d in sorted(OUT.glob('C*/[AB]')):
+    for d in sorted(OUT.glob('C*/[A-F]')):
         name = f'{d.parent.name}/{d.name}'
         if only and name not in only:
             continue
@@ -96,10 +96,13 @@ def main():
 
 
 OBSOLETE = {
-    'C08/A': 'made harmless by fix 028f92b (conditions are decided once when their line is read); the changed code path is gone',
-    'C14/A': 'made harmless by fix 0e67945 / 277df5b (the pretty printer now runs before the image is written); demo passes with the patch',
-    'C14/B': 'does not apply: the code it changed was rewritten by fixes 277df5b and b635d75',
-    'C15/A': 'made harmless by fix 277df5b (the image is built from an address->byte map, so the changed sort key no longer matters)',
+    'C08/A': 'made harmless by fix 028f92b: branch selection is now decided once by ConditionStack._decisions / evaluate_own, and no '
+             'longer goes through the is_lineage_true recursion the change weakens; demo passes with the patch',
+    'C14/A': 'made harmless by fix 83a5fb8: a value outside the range of its field is rejected before it reaches PackedBits, so the '
+             'changed conversion never sees one; demo passes with the patch',
+    'C14/B': 'does not apply: the image writer it changed was rewritten by fix 277df5b (image built from an address->byte map)',
+    'C15/A': 'made harmless by fix f3e7cef: substitution is whole-word, so the order in which symbols are substituted no longer matters; '
+             'demo passes with the patch',
     'C16/B': 'made harmless by fix 374d186 (the compact hex printer writes address records from the addresses of the bytes, not from '
              'the order in which lines arrive); demo passes with the patch',
 }
